@@ -18,11 +18,17 @@ ASSUMPTIONS = [
 RULE = ("directory trees with a root and decoy layer files outside it (in a sibling directory named outside, or root2/root-old/roots/rootsub: names that extend the root's); inputs inside the root reach for the decoys through $parent with .., "
         "absolute paths, wildcards, filename chains, relative/absolute/chained symlinks and directory symlinks; root spellings sub, ., .., nested "
         "SetRoot (library), and / (control: then the decoy is legitimately readable); each layout run with 3 decoy variants (original, rewritten, "
-        "removed): exit status and stdout must be identical, and strace must show no successful open of a decoy file; non-trivial = the input "
+        "removed): exit status and stdout must be identical, and strace must show no successful open of a decoy file; where the outcome is "
+        "exactly whether the input path can be opened through the root (links inside and outside, relative/absolute/chained/directory links, inputs "
+        "outside) the directory tree is snapshotted and Model.Root.root_open must agree with bkl -r on success and on the content read; non-trivial = the input "
         "actually reaches for a decoy; distinct by hash")
 
 ATTACKS = ["parent_dotdot", "parent_abs", "parent_wild", "symlink_rel", "symlink_abs", "symlink_chain", "dir_symlink", "filename_chain_link",
-           "input_outside", "input_dotdot", "benign", "benign_chain", "parent_list"]
+           "input_outside", "input_dotdot", "benign", "benign_chain", "parent_list",
+           "link_inside_rel", "link_inside_abs", "link_inside_chain", "dir_link_inside"]
+# attacks whose outcome is exactly "can the input path be opened through the root": compared with Model.Root.root_open
+DIRECT = {"symlink_rel", "symlink_abs", "symlink_chain", "dir_symlink", "input_outside", "input_dotdot",
+          "link_inside_rel", "link_inside_abs", "link_inside_chain", "dir_link_inside"}
 
 
 OUTNAMES = ["outside", "root2", "root-old", "roots", "rootsub"]
@@ -72,6 +78,21 @@ def build(base, attack, rng, variant, outname="outside"):
         target = os.path.join(out, "decoy.yaml")
     elif attack == "input_dotdot":
         target = "../%s/decoy.yaml" % outname
+    elif attack == "link_inside_rel":
+        os.symlink("base.yaml", inp)
+        reaches = False
+    elif attack == "link_inside_abs":
+        os.symlink(os.path.join(root, "base.yaml"), inp)      # spelled absolute, although it stays inside
+        reaches = None                                          # the model decides (os.Root refuses absolute targets)
+    elif attack == "link_inside_chain":
+        os.symlink("hop.yaml", inp)
+        os.symlink("sub/../base.yaml", os.path.join(root, "hop.yaml"))
+        reaches = False
+    elif attack == "dir_link_inside":
+        open(os.path.join(root, "sub", "x.yaml"), "w").write(gen.emit("yaml", [{"subx": 1}]))
+        os.symlink("sub", os.path.join(root, "dl"))
+        target = "dl/x.yaml"
+        reaches = False
     elif attack == "benign":
         open(inp, "w").write(gen.emit("yaml", [{"$parent": "base", "x": 1}]))
         reaches = False
@@ -93,6 +114,27 @@ def invocations(root, out, target, spelling):
     if spelling == "abs":
         return root, ["-r", root, abs_target]
     raise ValueError(spelling)
+
+
+def comps(p):
+    return [c for c in os.path.normpath(p).split("/") if c]
+
+
+def snapshot_fs(base):
+    """the directory tree as Model.Root's table: path components -> dir | file content | link (spelled absolute?, target)"""
+    out = []
+    for dirpath, dirnames, filenames in os.walk(base, followlinks=False):
+        for n in list(dirnames) + list(filenames):
+            p = os.path.join(dirpath, n)
+            if os.path.islink(p):
+                t = os.readlink(p)
+                out.append([comps(p), ["link", os.path.isabs(t), comps(t if os.path.isabs(t) else os.path.join(dirpath, t))]])
+            elif os.path.isdir(p):
+                out.append([comps(p), ["dir"]])
+            else:
+                out.append([comps(p), ["file", open(p, errors="replace").read()]])
+    out.append([comps(base), ["dir"]])
+    return out
 
 
 DECOY_RE = re.compile(r'open(?:at)?\((?:[^,]*, )?"([^"]*decoy[^"]*)"[^)]*\)\s*=\s*(-?\d+)')
@@ -152,11 +194,17 @@ def run(ctx):
         # control: with the whole file system as root the decoy may be read (shows the attack is real)
         root, out, target, reaches = build(base, a, rng, "original", outname_of(i))
         cwd, args = invocations(root, out, target, s)
+        mcase = None
+        if a in DIRECT:
+            mcase = ["rootopen", snapshot_fs(base), comps(os.path.join(cwd, args[1])), comps(os.path.join(cwd, args[2]))]
         ctl = core.cli(os.path.join(ctx.bindir, "bkl"), ["-f", "json"] + args[2:], cwd)
         shutil.rmtree(base, ignore_errors=True)
-        return a, s, reaches, res, ctl, outname_of(i)
+        return a, s, reaches, res, ctl, outname_of(i), mcase
     results = core.pmap(one, range(len(picks)), workers=8)
-    for a, s, reaches, res, ctl, outname in results:
+    midx = [k for k, r in enumerate(results) if r[6] is not None]
+    mres = dict(zip(midx, ctx.model([results[k][6] for k in midx]))) if midx else {}
+    dist["compared_with_root_model"] = len(midx)
+    for ri, (a, s, reaches, res, ctl, outname, mcase) in enumerate(results):
         dist["outside_named_" + outname] = dist.get("outside_named_" + outname, 0) + 1
         evals += 4
         k = a + ("_ok" if res[0][0] == 0 else "_refused")
@@ -168,11 +216,29 @@ def run(ctx):
         for r in res:
             if r[3]:
                 why = "a file outside the root was opened: %r" % r[3][:3]
+        if ri in mres:
+            m = mres[ri]
+            mok = isinstance(m, list) and m and m[0] == "ok"
+            dist["root_model_" + ("opens" if mok else "refuses")] = dist.get("root_model_" + ("opens" if mok else "refuses"), 0) + 1
+            model_why = None
+            if mok != (res[0][0] == 0):
+                model_why = "bkl -r %s where Model.Root.root_open %s (%s)" % ("succeeds" if res[0][0] == 0 else "fails: " + res[0][2].strip()[-120:], "opens the path" if mok else "refuses it", m[:2])
+            elif mok:
+                import yaml
+                want = [d for d in yaml.safe_load_all(m[1])]
+                got = core.parse_json_docs(res[0][1].decode("utf-8", "replace"))
+                if not veq(got, want):
+                    model_why = "bkl -r prints %s, the file the model opens holds %s" % (hist.short(got), hist.short(want))
+            if model_why and why is None and len(ctx.violations) < 5:
+                # the sandbox model and the code differ; whether anything outside the root was read is judged by the oracles below
+                ctx.violations.append({"name": "rootmodel-%s-%s-%s" % (a, s, outname), "property": "C18", "kind": "no-failing-input-found",
+                                       "theorem": "C18_reads_only_inside / C18_outside_irrelevant (Properties/C18.v) are about Model.Root.root_open; its correspondence with bkl -r broke",
+                                       "why": model_why, "attack": a, "root_spelling": s, "outside_name": outname, "class": "c18-root-model"})
         if reaches and res[0][0] == 0 and b"S1" in res[0][1]:
             why = "decoy content appears in the output"
-        if reaches and res[0][0] == 0 and a not in ("benign", "benign_chain"):
+        if reaches is True and res[0][0] == 0 and a not in ("benign", "benign_chain"):
             why = why or "an escape attempt succeeded (rc=0): stdout %r" % res[0][1][:100]
-        if not reaches and res[0][0] != 0:
+        if reaches is False and res[0][0] != 0:
             why = "a layout that stays inside the root was refused: " + res[0][2][-200:]
         if ctl[0] == 0 and reaches and b"S1" in ctl[1]:
             dist["control_reads_decoy_without_root"] = dist.get("control_reads_decoy_without_root", 0) + 1
